@@ -209,13 +209,13 @@ IMPL_OPS.update({
 # factories need the dtype: handled in Op.impl / Op.dense
 FACTORY_IMPL = {
     "OEye": lambda ia, dtype: _tt().eye(ia[0], dtype=dtype),
-    "OOnes": lambda ia, dtype: _tt().ones(ia[0], dtype=dtype),
-    "OZeros": lambda ia, dtype: _tt().zeros(ia[0], dtype=dtype),
+    "OOnes": lambda ia, dtype: _tt().ones(ia[0] if len(ia) == 1 else [(m, n) for m, n in zip(ia[0], ia[1])], dtype=dtype),
+    "OZeros": lambda ia, dtype: _tt().zeros(ia[0] if len(ia) == 1 else [(m, n) for m, n in zip(ia[0], ia[1])], dtype=dtype),
 }
 FACTORY_DENSE = {
     "OEye": lambda ia, dtype: _eye_dense(None, ia, dtype),
-    "OOnes": lambda ia, dtype: _imp()[0].ones(ia[0], dtype=dtype),
-    "OZeros": lambda ia, dtype: _imp()[0].zeros(ia[0], dtype=dtype),
+    "OOnes": lambda ia, dtype: _imp()[0].ones(ia[0] if len(ia) == 1 else list(ia[0]) + list(ia[1]), dtype=dtype),
+    "OZeros": lambda ia, dtype: _imp()[0].zeros(ia[0] if len(ia) == 1 else list(ia[0]) + list(ia[1]), dtype=dtype),
 }
 DENSE_OPS = dict(IMPL_OPS)
 DENSE_OPS["OKron"] = lambda a, ia: _kron_dense(a[0], a[1])
